@@ -22,8 +22,8 @@ from .env import HarnessError, VERIF
 
 PROPS = ['C%02d' % i for i in range(1, 20)]
 KNOWN_FILE = os.path.join(VERIF, 'known_findings.json')
-REPLAY_DIR = os.path.join(VERIF, 'replays')
-EVIDENCE_DIR = os.path.join(VERIF, 'evidence')
+REPLAY_DIR = os.environ.get('VERIF_REPLAY_DIR') or os.path.join(VERIF, 'replays')
+EVIDENCE_DIR = os.environ.get('VERIF_EVIDENCE_DIR') or os.path.join(VERIF, 'evidence')
 
 
 def load_known():
